@@ -1,20 +1,90 @@
+import os
+
+import vlib
 from check import Prop
 
 
 class C40(Prop):
     pid = "C40"
     check_mod = "C40"
-    drivers = [dict(pkg="internal/core", test="TestVerifC40", timeout=600)]
+    drivers = [dict(pkg="internal/core", test="TestVerifC40", timeout=900)]
     n_quick = 32
-    n_thorough = 480
-    shard = 60
+    n_thorough = 320
+    shard = 40
     search_factor = 2
-    level = "proof"
-    ready = False
-    rule = "x"
-    trusted_base = []
-    assumptions = []
-    manifest = dict(text="x", note="x", technique="x")
+    level = "proof"        # PARTIAL: see manifest note — the data-race half of C40 is not decided by proof
+    ready = True
+    rule = ("forced schedules: 8 scenario families with random parameters (A close a path that is about to call setPathReady; "
+            "B override of a publisher: setPathNotReady+setPathReady vs close; C path manager busy in a handler while a path "
+            "calls setPathNotReady: no escape, the path waits; D requests on hold answered at termination; E calls on a dead "
+            "path; F shutdown with calls in flight at every kind of program point; G on-demand timer; H everyday flows incl. "
+            "closePathIfIdle -> doClosePath -> removePath escape, reload that removes / re-creates a static path), each on a "
+            "REAL pathManager with real paths, frozen through in-package hooks (logger, auth manager, publisher Close) that run "
+            "on the goroutines of the real code; after every segment the program point of every goroutine is read from a "
+            "goroutine dump and compared with the model state reached by the segment's labels, together with the model's "
+            "claim that nothing else can move. Soak: 8-12 goroutines x 40 random operations (AddReader/AddPublisher/Describe/"
+            "Remove*/APIPathsList/APIPathsGet/ReloadPathConfs incl. reloads that close paths, on-demand paths with a 150 ms "
+            "timer, dynamic paths that close themselves when idle) and a final close(), half of them with close() while the "
+            "calls are in flight; 16 s watchdog per call (8 s per forced segment). Non-trivial = every case; distinct = distinct descriptions")
+    trusted_base = ["Coq 8.16.1 kernel + VM (vm_compute for cases and for the _refuted witness)",
+                    "in-package driver zz_verif_c40_test.go: hooks on the real goroutines, classification of goroutine "
+                    "dumps (runtime.Stack) by frame names of internal/core (pathManager.run, path.run/runInner, removePath, "
+                    "setPathReady/NotReady, closePathIfIdle, the caller-side methods) and goroutine wait states",
+                    "model Model/C40_Rendezvous.v hand-written from path_manager.go / path.go, tied by the forced-schedule "
+                    "correspondence (program points + enabledness), theorem C40_check_settled_sound for the enabledness test"]
+    assumptions = ["NOT PROVED: data-race freedom (Go memory model) — outside what a Gallina model can express; the thorough "
+                   "tier runs the soak under `go test -race` as supporting TESTING evidence only",
+                   "Go channel semantics: unbuffered send/receive is a rendezvous; a select with a ready branch proceeds; "
+                   "a cancelled context keeps its Done() channel closed; cancelling pm.ctx cancels every pa.ctx",
+                   "calls out of the modelled processes return: hooks.On*, externalcmd, stream/recorder/forwarder Close, "
+                   "publisher/reader Close(), hls.Server.PathReady/PathNotReady (a select with its own ctx.Done()), "
+                   "staticsources.Handler Start/Stop/Close, authManager.Authenticate",
+                   "a handler of the path loop performs at most 3 calls to its parent (setNotAvailable, setAvailable, "
+                   "closePathIfIdle) — the bound `max_pm_calls` used by the termination measure",
+                   "not modelled: Core.closeResources vs in-flight API configuration edits (same select{send; ctx.Done()} "
+                   "shape as the modelled callers, but Core.run is not in the model), APIPathsList's loop over paths, "
+                   "the static-source handler's own goroutine, HLS muxers calling back into the path manager"]
+    manifest = dict(
+        text="PARTIAL. Deadlock-freedom half: Coq theorems over a transition-system model of the rendezvous protocol between "
+             "pathManager.run (incl. doClosePath = pa.close(); pa.wait()), every path loop (any handler = any well-formed "
+             "script of answers and setPathReady/NotReady/closePathIfIdle calls; termination sequence removePath, answers to "
+             "requests on hold, setPathNotReady), callers (AddReader/AddPublisher/Describe/APIPathsGet, ReloadPathConfs, direct "
+             "path calls) and pathManager.close(), for ANY number of paths and callers and ALL interleavings: a reachable-state "
+             "invariant gives progress (either everything is quiescent or a non-environment step is enabled); a measure that "
+             "every internal step decreases gives that every schedule is finite, quiescence is reached, shutdown always ends in "
+             "the all-terminated state and every started call returns; the variant without the <-pa.ctx.Done() escape branches "
+             "is refuted with the reachable state 'path manager in pa.wait(), path blocked in setPathReady'. The model is tied "
+             "to the code by forcing schedules on the real pathManager and comparing every goroutine's program point and the "
+             "model's enabledness claims.",
+        note="Data-race freedom is NOT decided by proof (it is a property of the Go memory model that an executable Gallina "
+             "model cannot exhibit); a `go test -race` soak of the driver runs in the thorough tier as supporting testing "
+             "evidence only. External calls made from the loops are assumed to return. Core.closeResources vs API edits is not "
+             "modelled.",
+        technique="Coq proof (labelled transition system with program counters, reachable-state invariant by induction over "
+                  "steps, case analysis for progress, nat-valued measure) + forced-schedule correspondence via vm_compute + "
+                  "watchdog soak")
+
+    def run_drivers(self, ctx, n, seed, replay=None):
+        cases, summaries, errors = Prop.run_drivers(self, ctx, n, seed, replay)
+        if ctx.tier == "thorough" and not replay:
+            outp = os.path.join(ctx.workdir, "driver_race_%d.jsonl" % n)
+            if os.path.exists(outp):
+                os.remove(outp)
+            env = {"VERIF_SEED": seed, "VERIF_N": 6, "VERIF_OUT": outp, "VERIF_TIER": ctx.tier,
+                   "VERIF_WORK": ctx.workdir, "VERIF_C40_RACE": "1"}
+            rc, out = vlib.run_driver(ctx.workdir, "internal/core", "TestVerifC40", env, timeout=1500, race=True)
+            rows = [r for r in vlib.read_jsonl(outp) if "summary" not in r]
+            calls = sum(r.get("desc", {}).get("calls", 0) for r in rows)
+            races = out.count("WARNING: DATA RACE")
+            summaries.append("race detector soak (TESTING, not proof): %d runs, %d calls, %d data race reports, rc=%d"
+                             % (len(rows), calls, races, rc))
+            for r in rows:
+                r["driver"] = "TestVerifC40(-race)"
+                r["id"] = len(cases)
+                cases.append(r)
+            if rc != 0:
+                errors.append("race soak failed (rc=%d):\n%s" % (rc, out[-4000:]))
+        return cases, summaries, errors
 
 
 PROP = C40()
